@@ -2,6 +2,6 @@
 from specs import gc
 
 LEVEL = 'proof'
-UNITS = [gc.delete_unit('C02')]
+UNITS = [gc.delete_unit('C02'), gc.clean_unit('C02')]
 TRUSTED = []
 ASSUMPTIONS = []
